@@ -46,6 +46,11 @@ class Energies:
                 pts.add(e)
                 for q in eps:
                     pts.add(e * (1 + q)); pts.add(e * (1 - q))
+            # the boundary values themselves as the BUILD stores them ("%.10E") and their two neighbouring doubles: sites that compare an
+            # energy with an edge must agree on '<' versus '<=' (a bracket of 1 +- eps around the edge cannot see that)
+            for e in set(ed):
+                b = float("%.10E" % e)
+                pts |= {b, float(np.nextafter(b, np.inf)), float(np.nextafter(b, -np.inf))}
             sed = sorted(ed)
             for a, b in zip(sed, sed[1:]):
                 pts.add(0.5 * (a + b))
